@@ -63,10 +63,10 @@ class SMachInt(symex.SInt):
 
 
 def _exact_pow2(kz):
-    """2 ** k for an integer term 0 <= k <= 70 as an exact case distinction (outside: the uninterpreted POW2)"""
+    """2 ** k for an integer term 0 <= k <= 45 as an exact case distinction (outside: the uninterpreted POW2)"""
     from vlib.mathnp import LOG2POW2
     e = LOG2POW2.g(z3.ToReal(kz))
-    for k in range(70, -1, -1):
+    for k in range(45, -1, -1):
         e = z3.If(kz == k, z3.RealVal(2 ** k), e)
     return e
 
@@ -124,7 +124,9 @@ def run_scale(cfg):
                 k = z3.Int('k')
                 c.assume(k >= 0, k <= 40)
                 sf_ = o.hertz_to_scale(SReal(f))
-                si_, sr_ = o.scale_to_hertz(SInt(k)), o.scale_to_hertz(SInt0(k))
+                from vlib.mathnp import LOG2POW2
+                c.assume(LOG2POW2.g(z3.ToReal(k)) == _exact_pow2(k))       # the uninterpreted 2 ** x agrees with the exact power at the integer k
+                si_, sr_ = o.scale_to_hertz(SInt(k)), o.scale_to_hertz(SReal(z3.ToReal(k)))      # reference: the float of equal value
                 c.assume(rv(sr_) >= lo, rv(sr_) <= FMAX)        # the scale value lies in the image of the domain [lowest, 10^5] Hz
                 # the integer scale value must lie in the image for the comparison to be meaningful: k == h2s(f) for some f
                 return ('ok', z3.Or(rv(hi_) != rv(hf_), rv(si_) != rv(sr_)))
